@@ -43,7 +43,8 @@ def cases(draw, tier):
     simplices = draw(st.lists(sx, max_size=4))
     ids = draw(st.lists(st.one_of(st.none(), st.integers(0, 40), st.sampled_from(["s1", "s2", "x", "7"])), min_size=len(simplices), max_size=len(simplices)))
     ori = draw(st.one_of(st.none(), st.lists(st.integers(0, 1), min_size=8, max_size=8)))
-    return {"kind": kind, "n": n, "simplices": simplices, "ids": ids, "isolated": draw(st.booleans()), "ori": ori}
+    return {"kind": kind, "n": n, "simplices": simplices, "ids": ids, "isolated": draw(st.booleans()), "ori": ori,
+            "ori_type": draw(st.sampled_from(["int", "bool", "npbool", "npint"]))}
 
 
 def strategy(tier):
@@ -87,7 +88,9 @@ def run_case(case, ctx):
     mem = {e: frozenset(m) for e, m in S.edges.members(dtype=dict).items()}
     big = [e for e in S.edges if len(mem[e]) >= 2]
     bits = case.get("ori")
-    ori = None if bits is None else {e: bits[i % len(bits)] for i, e in enumerate(big)}
+    # the docstring calls the orientation of a simplex "boolean": ints 0/1, Python bools and numpy bools are all drawn
+    cast = {"int": int, "bool": bool, "npbool": np.bool_, "npint": np.int64}[case.get("ori_type", "int")]
+    ori = None if bits is None else {e: cast(bits[i % len(bits)]) for i, e in enumerate(big)}
     maxo = max([len(m) for m in mem.values()], default=1) - 1
     C = ctx.check
     Bs = {}
@@ -161,7 +164,7 @@ def _exhaustive(tier, seed, run):
                     assignments = {tuple(rng.randint(0, 1) for _ in range(k)) for _ in range(16)}
                 for bits in assignments:
                     # orientation bits are consumed by position among the simplices with >= 2 nodes
-                    run(dict(base, ori=list(bits) + [0] * max(0, 8 - k)))
+                    run(dict(base, ori=list(bits) + [0] * max(0, 8 - k), ori_type=["int", "bool", "npbool", "npint"][(sum(bits) + k) % 4]))
                     n_cases += 1
     return {"exhaustive_complexes_on_le_4_vertices": n_complexes, "exhaustive_cases": n_cases,
             "exhaustive": tier == "thorough", "exhaustive_note": "all complexes on <= 4 vertices enumerated in both tiers; all orientation assignments only in the thorough tier"}
